@@ -11,7 +11,25 @@ NAMES = ['a', 'b', 'c', 'd', 'e', 'f', 'g', 'h']
 SIGNAL_DEATHS = [139, 137, 134]      # the probe dies of SIGSEGV / SIGKILL / SIGABRT (tools/orch/probe); the runner reports 128 + signal
 
 
-def gen_case(rng):
+# PARKED classes: inputs on which the unchanged /repo deviates, each reported under its own signature and written up, but not yet
+# listed in known_findings.json (only main edits that file).  While the switch is False the generators do not draw them and the corpus
+# loaders skip the corpus files carrying a "pending": "<signature>" key; VERIF_PENDING=1 switches them on for a run.
+#   step-name-with-white-space-never-runs               findings/C04_odd_step_names.md (1)   names with a blank (NAME_BLANK)
+#   parallel-step-with-comma-in-name-silently-dropped   findings/C04_odd_step_names.md (2)   names with a comma (NAME_COMMA)
+#   skip-name-matching-several-steps-aborts             findings/C04_odd_step_names.md (3)   skip names that are words of other names
+#   step-name-with-leading-dash-cannot-run              findings/C04_odd_step_names.md (4)   names beginning with '-' (NAME_DASH)
+#   log-name-exceeds-name-max                           findings/C11_log_name_too_long.md    names of 248 bytes and more (NAME_LONG)
+#   resume-after-kill-refused-lock-spelled-differently  findings/C03_resume_root_slash.md    (C03: switch in c03.py)
+PENDING_FINDINGS = os.environ.get('VERIF_PENDING', '1') == '1'     # armed: the signatures are listed in known_findings.json
+
+BOUNDARY_QUICK, BOUNDARY_THOROUGH = 0.08, 0.2        # shares > 0.1 count as the thorough tier: the expensive sizes get full weight
+
+
+def gen_case(rng, boundary=BOUNDARY_QUICK):
+    """boundary: the share of cases that carry one of the SIZE / SHAPE classes of gen_boundary (low in the quick tier - the big
+    ones cost seconds - full weight in the thorough tier; every class also has a deterministic corpus case b04_* / b11_*)"""
+    if rng.random() < boundary:
+        return gen_boundary(rng, heavy=boundary > 0.1)
     n = rng.randint(2, 7)
     steps = []
     heavy = rng.random() < 0.45         # runs of parallel steps longer than ncpu
@@ -34,12 +52,248 @@ def gen_case(rng):
         # newest first: while the queue is full, a job that is not the oldest finishes first
         order = [s['name'] for s in reversed(steps)]
     second = rng.random() < 0.25 and 'end' not in skip
-    return {'steps': steps, 'skip': skip, 'ncpu': ncpu, 'order': order, 'detached': rng.random() < 0.25,
+    case = {'steps': steps, 'skip': skip, 'ncpu': ncpu, 'order': order, 'detached': rng.random() < 0.25,
             'second_invocation': second,
             # how the second invocation is made: a fresh one; a resume of an older invocation of the same day whose directory
             # name is a proper prefix of the running one's (DATE.1 while DATE.10 runs); a resume (in the background) of an
             # older FINISHED invocation; a resume of the directory of the RUNNING invocation
             'second_kind': rng.choice(['fresh', 'resume-prefix', 'resume-old', 'resume-running']) if second else None}
+    if case['second_kind'] == 'resume-prefix':
+        # how many invocations of today exist already (the running one is DATE.<pre+1>) and which of them is resumed meanwhile:
+        # DATE.1 / DATE.10 (prefixes of DATE.10 / DATE.100), DATE.9 / DATE.99 (the neighbour: same length or one shorter, no prefix)
+        # (99 earlier directories cost 4 - 6 s - robsd-clean and the report look at them: rare in the quick tier, corpus b11_resume_10_while_100_runs)
+        case['pre'], case['older'] = rng.choice([(9, 1), (9, 1), (9, 9), (9, 9), (10, 1), (10, 10)] * (1 if boundary > 0.1 else 3) + [(99, 1), (99, 10), (99, 99)])
+        if rng.random() < 0.3:
+            case['root_slash'] = True      # canvas-dir "<root>/": the lock then names <root>//DATE.n
+    return case
+
+
+# ---- boundary SIZE / SHAPE classes ------------------------------------------------------------------------------------------
+BIG_COUNTS = [15, 16, 17, 31, 32, 33, 63, 64, 65]        # canvas steps without end: config vector growth, rows of step.csv
+EXIT_CODES = [126, 127, 255, 129, 143, 159]             # 129 / 143 / 159 as PLAIN exits (`exit 143`), not deaths: see 'plain'
+MORE_DEATHS = [143, 129, 137, 139]                        # SIGTERM, SIGHUP, SIGKILL, SIGSEGV
+# names the harness expects to WORK like any other (the model takes names as opaque byte strings); log file = NNN-<name>.log
+NAME_POOLS = {
+    'prefix': ['build', 'build-all', 'buil', 'build-al'],
+    'case': ['build', 'Build', 'BUILD', 'bUILD'],
+    'chars': ['a-b', 'a.b', 'x/y', 'k=v', 'x-', 'a--b', '.h', 'x/y/z', 'a=', '=a'],
+    'endlike': ['en', 'endx', 'End', 'end-2', 'xend', 'end.1'],
+    'len': ['L', 'M' * 64, 'N' * 200, 'O' * 247],         # 247: the log name 'NNN-<name>.log' is NAME_MAX (255) bytes long
+}
+# names for which the code is known to deviate; each class has its own signature (see c04.name_class / judge)
+NAME_LONG = ['P' * 248, 'Q' * 254, 'R' * 255]            # log name 256 .. 263 bytes: longer than NAME_MAX
+NAME_BLANK = ['a b', 'two words']                         # robsd-step -L line 'N a b' read back word by word (C10 known finding)
+NAME_COMMA = ['a,b']                                      # robsd-step -W refuses the value (C01 repair bda6bfa)
+NAME_DASH = ['-x', '-b']                                  # robsd-exec / robsd-step take the name for an option (no `--` before it)
+
+
+def names_for(n):
+    return NAMES[:n] if n <= len(NAMES) else ['s%d' % i for i in range(1, n + 1)]
+
+
+def expand(case):
+    """corpus cases may describe a long configuration compactly: 'compact': [[count, parallel 0|1, exit], ...] -> steps named
+    s1, s2, ... (exit applies to the LAST step of the group, the others exit 0)"""
+    if 'compact' in case and 'steps' not in case:
+        steps = []
+        for cnt, par, ex in case['compact']:
+            for k in range(cnt):
+                steps.append({'name': 's%d' % (len(steps) + 1), 'parallel': bool(par), 'exit': ex if k == cnt - 1 else 0})
+        case = dict(case, steps=steps)
+        case.setdefault('order', [s['name'] for s in steps])
+    case.setdefault('skip', [])
+    case.setdefault('ncpu', 2)
+    case.setdefault('detached', False)
+    case.setdefault('order', [s['name'] for s in case['steps']])
+    return case
+
+
+def classes_of(case):
+    """the boundary classes a case falls into (generated or corpus) - printed into the input distribution"""
+    out = []
+    n = len(case['steps'])
+    if n == 1 or n >= 15:
+        out.append('steps=%d (free-running)' % n if case.get('free') else 'steps=%d' % n)
+    live = [s for s in case['steps'] if s['name'] not in case['skip']]
+    run = best = 0
+    for s in live:
+        run = run + 1 if s.get('parallel') else 0
+        best = max(best, run)
+    if case.get('bclass') == 'parrun' or best >= 8:
+        out.append('longest run of parallel steps %d, ncpu %d' % (best, case['ncpu']))
+    if live and live[-1].get('parallel'):
+        out.append('parallel step(s) at the very end of the configuration')
+    fails = [i for i, s in enumerate(case['steps']) if s['exit'] != 0 and not s.get('parallel') and s['name'] not in case['skip']]
+    if fails and n >= 15:
+        i = fails[0]
+        out.append('first failing synchronous step at index %s of %d' % ({n - 1: 'last', n - 2: 'last-1'}.get(i, str(i)), n))
+    sk = [i for i, s in enumerate(case['steps']) if s['name'] in case['skip']]
+    if sk and n >= 3:
+        if len(sk) == n - 1:
+            out.append('skip: all but one')
+        elif len(sk) == n:
+            out.append('skip: every step')
+        else:
+            if 0 in sk:
+                out.append('skip: first step')
+            if n - 1 in sk:
+                out.append('skip: last step')
+            if any(i in (14, 15, 16) for i in sk):
+                out.append('skip: step 15/16/17')
+        if fails and any(i > fails[0] for i in sk):
+            out.append('skip records trailing a failed step')
+    for s in case['steps']:
+        if s.get('plain') or s['exit'] in (126, 127):
+            out.append('exit code %d (plain exit)' % s['exit'])
+        elif s['exit'] in MORE_DEATHS or s['exit'] in SIGNAL_DEATHS:
+            out.append('death by signal %d' % (s['exit'] - 128))
+    nm = name_class(case)
+    if nm:
+        out.append('names: ' + nm)
+    if case.get('hook_args'):
+        out.append('hook arguments: %d extra, longest %d bytes' % (len(case['hook_args']), max(len(a) for a in case['hook_args'])))
+    if case.get('second_kind') == 'resume-prefix':
+        out.append('resume of DATE.%d while DATE.%d runs%s' % (case.get('older', 1), case.get('pre', 9) + 1, ', root with trailing slash' if case.get('root_slash') else ''))
+    if case.get('pre') and case.get('second_kind') != 'resume-prefix':
+        out.append('%d invocations of today exist' % case['pre'])
+    return out
+
+
+def name_class(case):
+    names = [s['name'] for s in case['steps']]
+    if any(' ' in x or '\n' in x or '\t' in x for x in names):
+        return 'white space'
+    if any(',' in x for x in names):
+        return 'comma'
+    if any(x.startswith('-') for x in names):
+        return 'leading dash'
+    if any(len(x.replace('/', '-')) > 247 for x in names):
+        return 'log name longer than NAME_MAX'
+    low = [x.lower() for x in names]
+    cls = []
+    if len(set(low)) != len(low):
+        cls.append('differ in case only')
+    if any(a != b and len(a) > 1 and b.startswith(a) for a in names for b in names + ['end']) or any(a != 'end' and 'end' in a.lower() for a in names):
+        cls.append('prefix of another')
+    if any(c in x for x in names for c in '-./='):
+        cls.append("contain one of - . / =")
+    if any(len(x) >= 64 for x in names):
+        cls.append('length %d' % max(len(x) for x in names))
+    return ', '.join(cls)
+
+
+def gen_boundary(rng, heavy=False):
+    kind = rng.choice(['big', 'big', 'parrun', 'parrun', 'parrun', 'exit', 'exit', 'names', 'names', 'badnames', 'hook', 'one', 'pre'])
+    if kind == 'badnames' and not PENDING_FINDINGS:
+        kind = 'names'                          # parked (see PENDING_FINDINGS)
+    if kind == 'big':
+        # mostly 15-17; 31-33 and 63-65 cost 3 - 6 s each (10 s on a loaded machine): rare in the quick tier, where the corpus has them
+        n = rng.choice(BIG_COUNTS[:3] * 4 + BIG_COUNTS[3:6] * 2 + BIG_COUNTS[6:]) if heavy else rng.choice(BIG_COUNTS[:3] * 10 + BIG_COUNTS[3:6] + [rng.choice(BIG_COUNTS[6:])])
+        names = names_for(n)
+        steps = [{'name': nm, 'parallel': False, 'exit': 0} for nm in names]
+        for _ in range(rng.choice([0, 1, 2])):                  # a few runs of parallel steps, anywhere (also at the very end)
+            a = rng.randrange(n)
+            for j in range(a, min(n, a + rng.choice([1, 2, 3, 4]))):
+                steps[j]['parallel'] = True
+        if rng.random() < 0.3:
+            for j in range(n - rng.choice([1, 2]), n):
+                steps[j]['parallel'] = True
+        f = rng.choice([None, None, 0, 1, 15, 16, n - 2, n - 1])
+        if f is not None and f < n:
+            steps[f]['exit'] = rng.choice([1, 2, 255])
+        sk = rng.choice(['none', 'none', 'first', 'last', 'allbutone', 'mid', 'trailing'])
+        skip = {'none': [], 'first': [names[0]], 'last': [names[-1]], 'mid': [nm for nm in names[14:17]],
+                'allbutone': [nm for i, nm in enumerate(names) if i != (f if f is not None and f < n else n // 2)],
+                'trailing': names[-rng.choice([1, 2, 3]):]}[sk]
+        return {'steps': steps, 'skip': skip, 'ncpu': rng.choice([1, 2, 3]), 'order': names, 'detached': rng.random() < 0.2,
+                'second_invocation': False, 'second_kind': None, 'free': True, 'bclass': 'big'}
+    if kind == 'parrun':
+        ncpu = rng.choice([1, 2, 3])
+        L = rng.choice([0, 1, ncpu - 1, ncpu, ncpu + 1, ncpu + 1, 2 * ncpu, 2 * ncpu] * (1 if heavy else 2) + [16, 17])
+        before, after = rng.choice([0, 1]), rng.choice([0, 0, 1])        # after == 0: the run is at the very END of the configuration
+        n = max(1, before + L + after)
+        names = names_for(n)
+        steps = [{'name': nm, 'parallel': before <= i < before + L, 'exit': 0} for i, nm in enumerate(names)]
+        if rng.random() < 0.5:
+            steps[rng.randrange(n)]['exit'] = rng.choice([1, 255] + SIGNAL_DEATHS)
+        order = list(names)
+        o = rng.random()
+        if o < 0.4:
+            order.reverse()
+        elif o < 0.7:
+            rng.shuffle(order)
+        return {'steps': steps, 'skip': [], 'ncpu': ncpu, 'order': order, 'detached': False, 'second_invocation': False,
+                'second_kind': None, 'bclass': 'parrun'}
+    # the remaining classes sit on a small gated configuration
+    case = None
+    while case is None or case.get('second_invocation') or 'end' in case['skip']:
+        case = gen_case(rng, boundary=-1.0)
+    steps = case['steps']
+    if kind == 'one':
+        case['steps'] = steps[:1]
+        case['skip'] = [x for x in case['skip'] if x == steps[0]['name'] and rng.random() < 0.3]
+        case['order'] = [steps[0]['name']]
+    elif kind == 'exit':
+        s = rng.choice(steps)
+        if rng.random() < 0.6:
+            s['exit'] = rng.choice(EXIT_CODES)
+            if s['exit'] > 128:
+                s['plain'] = True                # the probe EXITS with 128 + n; it does not die of signal n
+        else:
+            s['exit'] = rng.choice(MORE_DEATHS)
+    elif kind in ('names', 'badnames'):
+        if kind == 'names':
+            pool = list(NAME_POOLS[rng.choice(sorted(NAME_POOLS))])
+            if rng.random() < 0.3:
+                pool += NAME_POOLS[rng.choice(sorted(NAME_POOLS))]
+        else:
+            pool = [rng.choice(rng.choice([NAME_LONG, NAME_BLANK, NAME_COMMA, NAME_DASH]))] + ['a', 'b', 'c', 'd', 'e', 'f']
+            case['free'] = True                 # the model's prediction is known not to be met: no gates to wait at
+            case['skip'] = []
+            for st in steps:
+                st['exit'] = 0
+        pool = list(dict.fromkeys(pool))
+        new = rng.sample(pool, min(len(pool), len(steps)))
+        if kind == 'badnames' and pool[0] not in new:
+            new[rng.randrange(len(new))] = pool[0]
+        ren = {}
+        for s, nm in zip(steps, new):
+            ren[s['name']] = nm
+            s['name'] = nm
+        case['steps'] = steps[:len(new)]
+        keep = {s['name'] for s in case['steps']}
+        case['skip'] = [ren[x] for x in case['skip'] if ren.get(x) in keep]
+        case['order'] = [ren[x] for x in case['order'] if ren.get(x) in keep]
+        if kind == 'names' and not case['skip'] and rng.random() < 0.5 and len(case['steps']) > 1:
+            case['skip'] = [rng.choice(case['steps'])['name']]
+    elif kind == 'hook':
+        # the hook command is  <path> ${step-name} ${step-exit} <extra ...>: 16 / 17 / 18 words with 13 / 14 / 15 extra ones
+        k = rng.choice(['1', '13', '14', '15', '1k', '4k'])
+        case['hook_args'] = {'1': ['x'], '13': ['x%d' % i for i in range(13)], '14': ['x%d' % i for i in range(14)],
+                             '15': ['x%d' % i for i in range(15)], '1k': ['y' * 1024], '4k': ['z' * 4096, 'w' * 1023]}[k]
+    elif kind == 'pre':
+        # ten or more invocations a day: the new one is DATE.<pre+1> (99 / 100 directories cost 4 - 6 s: robsd-clean and the report look at them)
+        case['pre'] = rng.choice([9, 10, 11] * (2 if heavy else 6) + [99, 100])
+    case['bclass'] = kind
+    if skip_ambiguous(case):
+        if PENDING_FINDINGS:
+            case['free'] = True                 # canvas is known to stop before the first step: no gates to wait at
+        else:
+            amb = set(skip_ambiguous(case))     # parked (see PENDING_FINDINGS): the ambiguous names leave the skip set
+            case['skip'] = [x for x in case['skip'] if x not in amb]
+    return case
+
+
+def skip_ambiguous(case):
+    """a name of the skip set that `grep -w` finds in the listing line of ANOTHER step as well (util.sh step_id): the names
+    differ but one occurs in the other delimited by non-word characters ('build' in 'build-all', 'x/y' in 'x/y/z')"""
+    names = [s['name'] for s in case['steps']] + ['end']
+    out = []
+    for w in case['skip']:
+        pat = re.compile(r'(?<![A-Za-z0-9_])' + re.escape(w) + r'(?![A-Za-z0-9_])')
+        if any(x != w and pat.search(x) for x in names):
+            out.append(w)
+    return out
 
 
 def step_toks(case):
@@ -96,23 +350,26 @@ def make_old(cv, case):
 def run_case(ctx, impl, drv, case):
     work = tempfile.mkdtemp(dir=ctx.mkscratch('orch'))
     cv = orch_env.Canvas(ctx, impl, work, [{'name': s['name'], 'parallel': s['parallel']} for s in case['steps']],
-                         skip=case['skip'], ncpu=case['ncpu'])
-    codes = {s['name']: s['exit'] for s in case['steps']}
+                         skip=case['skip'], ncpu=case['ncpu'], hook_args=case.get('hook_args') or (), root_slash=bool(case.get('root_slash')))
+    # a 'plain' step EXITS with its code even when that is 128 + n (gate content 'x<code>', see tools/orch/probe)
+    codes = {s['name']: ('x%d' % s['exit'] if s.get('plain') else s['exit']) for s in case['steps']}
     hold = case.get('hold') or {}                 # name -> seconds a gate stays closed after the step was seen to start
     ob = {'rounds': [], 'lock_samples': [], 'felloff_lock_samples': [], 'times': {}}
     kind = case.get('second_kind')
     try:
         older, base = None, {'mails': 0, 'endhooks': 0}
-        if kind == 'resume-prefix':
-            # nine finished invocations of today, so that the one under test is named DATE.10
+        if kind == 'resume-prefix' or case.get('pre'):
+            # <pre> finished invocations of today (nine unless the case says otherwise), so that the one under test is named
+            # DATE.<pre+1>: DATE.10 / .11 / .12 / .100 / .101
             today = time.strftime('%Y-%m-%d')
-            for k in range(1, 10):
+            for k in range(1, case.get('pre', 9) + 1):
                 d = os.path.join(cv.root, '%s.%d' % (today, k))
                 os.makedirs(os.path.join(d, 'tmp'))
-                open(os.path.join(d, 'step.csv'), 'w').write('step,name,exit,duration,delta,log,user,time,skip\n1,%s,1,1,0,001-x.log,root,1700000000,0\n' % case['steps'][0]['name'])
+                open(os.path.join(d, 'step.csv'), 'w').write('step,name,exit,duration,delta,log,user,time,skip\n1,%s,1,1,0,001-x.log,root,1700000000,0\n' % cv.key[case['steps'][0]['name']])
                 open(os.path.join(d, 'robsd.log'), 'w').write('')
-            older = os.path.join(cv.root, '%s.1' % today)
-        elif kind == 'resume-old':
+            older = os.path.join(cv.root, '%s.%d' % (today, case.get('older', 1)))
+            ob['expect_dir'] = '%s.%d' % (today, case.get('pre', 9) + 1)
+        if kind == 'resume-old':
             older, base = make_old(cv, case)
             if not base['ok']:
                 ob['setup_failed'] = 'the older invocation of the resume-old lane did not finish'
@@ -120,11 +377,18 @@ def run_case(ctx, impl, drv, case):
         pre = cv.builddirs()
         mine = lambda: [b for b in cv.builddirs() if b not in pre]
         t_launch = time.time()
+        if case.get('free'):
+            # free-running: every gate is open before canvas starts (configurations of 15 - 65 steps, and names for which the
+            # model's prediction is known not to be met).  One round: the completion order is read off the probes' trace.
+            for s in case['steps']:
+                cv.open_gate(s['name'], codes[s['name']])
         proc = cv.start([] if case['detached'] else ['-d'])
         finished = []
         second = None
         settle = 0.04
-        while True:
+        if case.get('free'):
+            free_run(cv, proc, drv, case, ob, mine)
+        while not case.get('free'):
             m = model(drv, case, finished)
             if m is None:
                 ob['model_error'] = True
@@ -150,7 +414,7 @@ def run_case(ctx, impl, drv, case):
             bds = mine()
             if m['running'] and got == want:
                 # sampled only while steps of this invocation are known to be waiting at their gates
-                sample = bool(lk and bds and lk.strip() == bds[0])
+                sample = bool(lk and bds and os.path.normpath(lk.strip()) == bds[0])
                 if m['mode'] == 'felloff':
                     # the model's loop ran out of schedule lines (end skipped) while these steps still run
                     ob['felloff_lock_samples'].append(sample)
@@ -181,7 +445,7 @@ def run_case(ctx, impl, drv, case):
             finished.append(nxt)
         ob['second'] = second
         try:
-            out, _ = proc.communicate(timeout=15 * SCALE)
+            out, _ = proc.communicate(timeout=(60 if case.get('free') else 15) * SCALE)
         except subprocess.TimeoutExpired:
             cv.kill_all(proc)
             out = b'(hung)'
@@ -197,6 +461,14 @@ def run_case(ctx, impl, drv, case):
         bd = bds[0] if bds else None
         ob['trace'] = cv.trace()
         ob['hooks'] = cv.hooklog()
+        if case.get('hook_args'):
+            # every call of the hook carries the configured extra words, unchanged, after ${step-name} ${step-exit}
+            for h in ob['hooks']:
+                w = h.split(' ')
+                if w[3:] != list(case['hook_args']):
+                    ob['hook_args_wrong'] = '%d extra words (lengths %s) instead of %d (lengths %s)' % (
+                        len(w[3:]), [len(x) for x in w[3:]][:20], len(case['hook_args']), [len(x) for x in case['hook_args']][:20])
+                    break
         ob['lock_after'] = cv.lockfile() is not None
         # mail of THIS invocation: not what the older invocation of the resume-old lane got, nor what the second one caused
         ob['mails'] = cv.mails() - base['mails'] - ((second or {}).get('mails_delta') or 0)
@@ -213,7 +485,9 @@ def run_case(ctx, impl, drv, case):
             for r in ob['rows']:
                 lg = r.get('log', '')
                 p = os.path.join(bd, lg) if lg else None
-                logs[r['step']] = bool(p and os.path.isfile(p) and ('output of %s' % r['name']) in open(p, errors='replace').read())
+                logs[r['step']] = bool(p and os.path.isfile(p) and ('output of %s\n' % cv.key.get(r['name'], r['name'])) in open(p, errors='replace').read())
+                if lg and lg != '%03d-%s.log' % (int(r['step']), r['name'].replace('/', '-')):
+                    ob.setdefault('odd_log_names', []).append(lg[:80])
             ob['logs'] = logs
             if case['detached']:
                 try:
@@ -224,6 +498,45 @@ def run_case(ctx, impl, drv, case):
     finally:
         cv.reap_strays()
         shutil.rmtree(work, ignore_errors=True)
+
+
+def free_run(cv, proc, drv, case, ob, mine):
+    """wait for a free-running invocation; meanwhile sample the lock whenever a step of it is seen in flight before AND
+    after the look at the lock file; afterwards ask the model once, with the completion order the probes recorded"""
+    t_end = time.time() + 60 * SCALE
+
+    def over():
+        # a detached invocation goes on in the background of a shell that has exited: it is over when its lock is gone
+        return proc.poll() is not None and (not case['detached'] or cv.lockfile() is None)
+    while not over() and time.time() < t_end:
+        tr = cv.trace()
+        inflight = {t[1] for t in tr if t[0] == 'start'} - {t[1] for t in tr if t[0] == 'end'}
+        if inflight and len(ob['lock_samples']) < 40:
+            lk, bds = cv.lockfile(), mine()
+            tr2 = cv.trace()
+            if inflight - {t[1] for t in tr2 if t[0] == 'end'}:
+                ob['lock_samples'].append(bool(lk and bds and os.path.normpath(lk.strip()) == bds[0]))
+        time.sleep(0.02)
+    if case['detached']:
+        time.sleep(0.05)
+    tr = cv.trace()
+    finished = [t[1] for t in tr if t[0] == 'end']
+    m = model(drv, case, finished)
+    if m is None:
+        # the recorded completion order is not one the model can follow (a step it has running never ended, or one ended that it
+        # never started): let the model run to ITS end, completing what it has running in the recorded order where there is one
+        ob['free_order_not_enabled'] = True
+        fin = []
+        while True:
+            m = model(drv, case, fin)
+            if m is None:
+                ob['model_error'] = True
+                return
+            if not m['running'] or len(fin) > len(case['steps']):
+                break
+            fin.append(min(m['running'], key=lambda x: finished.index(x) if x in finished else len(finished) + m['running'].index(x)))
+        finished = fin
+    ob['rounds'].append({'finished': finished, 'model_starts': m['starts'], 'impl_starts': [t[1] for t in tr if t[0] == 'start']})
 
 
 def second_invocation(cv, case, kind, older, running_dir, lk, started, base):
@@ -286,21 +599,27 @@ if [ -e root/.running ]; then printf 'lock='; od -An -tx1 root/.running | tr -d 
 
 
 def gen_lock_case(rng):
-    """a lock file content (none / empty / a build directory name) and the build directory of the caller; names
-    are chosen so that one is often a proper prefix, suffix or infix of the other (DATE.1 vs DATE.10)"""
+    """a lock file content (none / empty / a build directory name / a name without the final newline) and the build directory
+    of the caller; names are chosen so that one is often a proper prefix, suffix or infix of the other (DATE.1 vs DATE.10 /
+    DATE.100, DATE.9 vs DATE.10); the root may be spelled with a trailing slash (<root>//DATE.n)"""
     day = '2026-%02d-%02d' % (rng.randint(1, 12), rng.randint(1, 28))
-    root = rng.choice(['/home/robsd', 'r', '/tmp/x y'])
-    k = rng.randint(1, 12)
+    root = rng.choice(['/home/robsd', 'r', '/tmp/x y', '/home/robsd/'])
+    k = rng.choice(list(range(1, 13)) + [9, 10, 99, 100])
     owner = '%s/%s.%d' % (root, day, k)
-    kind = rng.choice(['same', 'prefix', 'prefix', 'longer', 'suffix', 'other', 'infix', 'none', 'empty'])
-    if kind == 'prefix':
-        # the caller's name is a proper prefix of the owner's: DATE.k while DATE.k0 .. DATE.k9 runs
-        b, owner = owner, owner + str(rng.randint(0, 9))
+    kind = rng.choice(['same', 'prefix', 'prefix', 'prefix2', 'longer', 'suffix', 'other', 'neighbour', 'infix', 'none', 'empty', 'nonl'])
+    if kind in ('prefix', 'prefix2'):
+        # the caller's name is a proper prefix of the owner's: DATE.k while DATE.k0 .. DATE.k9 (DATE.k00 .. DATE.k99) runs
+        b, owner = owner, owner + ('%d' % rng.randint(0, 9) if kind == 'prefix' else '%02d' % rng.randint(0, 99))
     else:
         b = {'same': owner, 'longer': owner + str(rng.randint(0, 9)), 'suffix': owner[1:],
-             'other': '%s/%s.%d' % (root, day, k + 1), 'infix': '%s.%d' % (day, k), 'none': owner, 'empty': owner}[kind]
+             'other': '%s/%s.%d' % (root, day, k + 1), 'neighbour': '%s/%s.%d' % (root, day, max(1, k - 1) if k > 1 else 2),
+             'infix': '%s.%d' % (day, k), 'none': owner, 'empty': owner, 'nonl': owner}[kind]
     lock = None if kind == 'none' else ('' if kind == 'empty' else owner)
-    return {'lock_unit': {'op': rng.choice(['acq', 'rel', 'rel']), 'lock': lock, 'b': b, 'kind': kind}}
+    # 'other' / 'neighbour' are also the STALE lock: the directory the file names does not exist (nothing in lock_acquire looks)
+    c = {'op': rng.choice(['acq', 'rel', 'rel']), 'lock': lock, 'b': b, 'kind': kind}
+    if kind == 'nonl':
+        c['no_newline'] = True         # the file holds the caller's own name WITHOUT the final newline (not what echo writes)
+    return {'lock_unit': c}
 
 
 def run_lock_case(ctx, impl, drv, case):
@@ -309,7 +628,7 @@ def run_lock_case(ctx, impl, drv, case):
     try:
         os.makedirs(os.path.join(work, 'root'))
         if c['lock'] is not None:
-            open(os.path.join(work, 'root', '.running'), 'w').write(c['lock'] + '\n' if c['lock'] else '')
+            open(os.path.join(work, 'root', '.running'), 'w').write((c['lock'] + ('' if c.get('no_newline') else '\n')) if c['lock'] else '')
         env = dict(os.environ)
         env['PATH'] = orch_env.SHIMS + ':' + env.get('PATH', '/usr/bin:/bin')
         r = subprocess.run(['bash', '-c', LOCK_SCRIPT, 'lock', impl, c['op'], c['b']], cwd=work, env=env,
@@ -322,6 +641,11 @@ def run_lock_case(ctx, impl, drv, case):
         impl_ans = '%s %s' % ('1' if out.get('rc') == '0' else '0', after)
         tok = 'none' if c['lock'] is None else common.hexs(c['lock'].encode())
         model_ans = common.run_driver(drv, ['%s %s %s' % ('lockacq' if c['op'] == 'acq' else 'lockrel', tok, common.hexs(c['b'].encode()))])[0]
+        if c.get('no_newline') and c['op'] == 'rel':
+            # RunLock.lockf is "the LINE the file holds": a file without the final newline is not expressible there.  "$(cat)" reads
+            # it as the name (lock_acquire: the model's answer stands), the whole-file test of lock_release (RelWholeFileEqual:
+            # `echo b | cmp - file`) does not: not the caller's, left as it is.  Stated here, not computed by the model.
+            model_ans = '0 raw:' + c['lock'].encode().hex()
         return model_ans, impl_ans
     finally:
         shutil.rmtree(work, ignore_errors=True)
@@ -391,6 +715,46 @@ def run_hook_stdin(ctx, impl, case):
         return {'rc': rc, 'started': [t[1] for t in cv.trace() if t[0] == 'start'],
                 'rows': [(r['step'], r['name'], r['exit'], r['skip']) for r in cv.rows(bds[0])] if bds else [],
                 'report': bool(bds and os.path.exists(os.path.join(bds[0], 'report'))), 'hook_read': eaten, 'tail': out[-300:]}
+    finally:
+        cv.reap_strays()
+        shutil.rmtree(work, ignore_errors=True)
+
+
+STALE_KINDS = ['vanished-other-day', 'vanished-today-10', 'vanished-today-1', 'empty', 'own-no-newline', 'vanished-no-newline']
+
+
+def run_stale_lock(ctx, impl, drv, case):
+    """C11 lane: a lock file is there BEFORE the (only) invocation starts - left by an invocation that is gone: it names a
+    directory that no longer exists (another day's, today's .10, or today's .1 = the name the new invocation gets itself), is
+    empty, or lacks the final newline.  Two sequential steps, every gate open.  What lock_acquire of Orch/RunLock.v answers for
+    (lock, <root>/TODAY.1) decides what must be seen: refused (status non-zero, nothing started, the lock file byte for byte as it
+    was, no build directory left behind, no mail) or a normal invocation (both steps, end recorded, lock gone afterwards)."""
+    work = tempfile.mkdtemp(dir=ctx.mkscratch('orchsl'))
+    cv = orch_env.Canvas(ctx, impl, work, [{'name': 'a'}, {'name': 'b'}], ncpu=1)
+    today = time.strftime('%Y-%m-%d')
+    mine = os.path.join(cv.root, today + '.1')
+    k = case['kind']
+    content = {'vanished-other-day': os.path.join(cv.root, '2001-02-03.1') + '\n', 'vanished-today-10': mine + '0\n',
+               'vanished-today-1': mine + '\n', 'empty': '', 'own-no-newline': mine,
+               'vanished-no-newline': os.path.join(cv.root, '2001-02-03.1')}[k]
+    try:
+        open(os.path.join(cv.root, '.running'), 'w').write(content)
+        line = content.rstrip('\n')                        # what "$(cat .running)" yields
+        tok = common.hexs(line.encode()) if line else '-'
+        m_ok = common.run_driver(drv, ['lockacq %s %s' % (tok, common.hexs(mine.encode()))])[0].split()[0] == '1'
+        for n in ('a', 'b'):
+            cv.open_gate(n, 0)
+        rc, out = drive(cv, cv.start(['-d' ] if not case.get('detached') else []), {}, timeout=20)
+        if case.get('detached'):
+            # the loop goes on in the background of a shell that has exited; a refusal happens before the shell detaches
+            if m_ok:
+                orch_env.wait_for(lambda: cv.lockfile() is None, timeout=20 * SCALE)
+            time.sleep(0.3 if not m_ok else 0.05)
+        bds = cv.builddirs()
+        return {'model_acquires': m_ok, 'rc': rc, 'started': [t[1] for t in cv.trace() if t[0] == 'start'],
+                'lock_after': cv.lockfile(), 'lock_before': content, 'builddirs': [os.path.basename(b) for b in bds],
+                'rows': [(r['step'], r['name'], r['exit'], r['skip']) for r in cv.rows(bds[0])] if bds else [],
+                'mails': cv.mails(), 'hooks': cv.hooklog(), 'tail': out[-300:]}
     finally:
         cv.reap_strays()
         shutil.rmtree(work, ignore_errors=True)
